@@ -9,7 +9,7 @@ package xsync
 
 // Representation invariant: every mapped key points at a slot of the live
 // region [head, len(order)) that holds that very key (so items is injective).
-//@ spec func tm_wf(s *TTLMap[K, V]) bool = 0 <= s.head && s.head <= len(s.order) && s.items != nil && forall k K :: has(s.items, k) ==> s.head <= s.items[k] && s.items[k] < len(s.order) && s.order[s.items[k]].key == k
+//@ spec func tm_wf(s *TTLMap[K, V]) bool = 0 <= s.head && s.head <= len(s.order) && s.items != nil && forall k keyof(s.items) :: has(s.items, k) ==> s.head <= s.items[k] && s.items[k] < len(s.order) && s.order[s.items[k]].key == k
 
 // ghost: the clock reading of the current call
 //@ ghost var clock int64
@@ -19,26 +19,26 @@ package xsync
 //@   loop 1 invariant wf: tm_wf(s)
 //@   loop 1 invariant head-grows: old(s.head) <= s.head
 //@   loop 1 invariant order-kept: s.order == old(s.order)
-//@   loop 1 invariant only-removes: forall j K :: has(s.items, j) ==> old(has(s.items, j)) && s.items[j] == old(s.items[j])
-//@   loop 1 invariant removed-were-expired: forall j K :: old(has(s.items, j)) && !has(s.items, j) ==> old(s.order[s.items[j]].expireAt) <= now
+//@   loop 1 invariant only-removes: forall j keyof(s.items) :: has(s.items, j) ==> old(has(s.items, j)) && s.items[j] == old(s.items[j])
+//@   loop 1 invariant removed-were-expired: forall j keyof(s.items) :: old(has(s.items, j)) && !has(s.items, j) ==> old(s.order[s.items[j]].expireAt) <= now
 //@   ensures wf: tm_wf(s)
 //@   ensures order-kept: s.order == old(s.order)
-//@   ensures only-removes: forall j K :: has(s.items, j) ==> old(has(s.items, j)) && s.items[j] == old(s.items[j])
-//@   ensures never-drops-live: forall j K :: old(has(s.items, j)) && !has(s.items, j) ==> old(s.order[s.items[j]].expireAt) <= now
+//@   ensures only-removes: forall j keyof(s.items) :: has(s.items, j) ==> old(has(s.items, j)) && s.items[j] == old(s.items[j])
+//@   ensures never-drops-live: forall j keyof(s.items) :: old(has(s.items, j)) && !has(s.items, j) ==> old(s.order[s.items[j]].expireAt) <= now
 //@   modifies TTLMap[K,V].head, map(K,int), ttlEntry[K,V].*
 
 //@ func (*TTLMap).Delete(s, k)
 //@   requires tm_wf(s)
 //@   ensures wf: tm_wf(s)
 //@   ensures removed: !has(s.items, k)
-//@   ensures others-untouched: forall j K :: j != k ==> has(s.items, j) == old(has(s.items, j)) && s.items[j] == old(s.items[j])
+//@   ensures others-untouched: forall j keyof(s.items) :: j != k ==> has(s.items, j) == old(has(s.items, j)) && s.items[j] == old(s.items[j])
 //@   ensures order-kept: s.order == old(s.order) && s.head == old(s.head)
 //@   modifies map(K,int)
 
 //@ func (*TTLMap).Reset(s)
 //@   requires tm_wf(s)
 //@   ensures wf: tm_wf(s)
-//@   ensures empty: forall j K :: !has(s.items, j)
+//@   ensures empty: forall j keyof(s.items) :: !has(s.items, j)
 
 //@ func (*TTLMap).Get(s, k)
 //@   requires tm_wf(s)
@@ -48,7 +48,7 @@ package xsync
 //@   ensures returns-stored-value: result1 ==> result0 == old(s.order[s.items[k]].value)
 //@   ensures expired-is-dropped: !result1 ==> !has(s.items, k)
 //@   ensures live-is-kept: result1 ==> has(s.items, k) && s.items[k] == old(s.items[k])
-//@   ensures others-untouched: forall j K :: j != k ==> has(s.items, j) == old(has(s.items, j)) && s.items[j] == old(s.items[j])
+//@   ensures others-untouched: forall j keyof(s.items) :: j != k ==> has(s.items, j) == old(has(s.items, j)) && s.items[j] == old(s.items[j])
 //@   ensures order-kept: s.order == old(s.order) && s.head == old(s.head)
 //@   modifies map(K,int)
 
@@ -58,8 +58,8 @@ package xsync
 //@   trusted "NOT YET VERIFIED: compaction loops (slow path filter + re-index) and the pigeonhole step of the fast path; the contract below is assumed where Set calls it"
 //@   requires tm_wf(s)
 //@   ensures wf: tm_wf(s)
-//@   ensures domain-kept: forall j K :: has(s.items, j) == old(has(s.items, j))
-//@   ensures entries-kept: forall j K :: has(s.items, j) ==> s.order[s.items[j]] == old(s.order[s.items[j]])
+//@   ensures domain-kept: forall j keyof(s.items) :: has(s.items, j) == old(has(s.items, j))
+//@   ensures entries-kept: forall j keyof(s.items) :: has(s.items, j) ==> s.order[s.items[j]] == old(s.order[s.items[j]])
 //@   modifies TTLMap[K,V].head, TTLMap[K,V].order, map(K,int), elems(ttlEntry[K,V])
 
 //@ func (*TTLMap).Set(s, k, v)
@@ -67,8 +67,8 @@ package xsync
 //@   at call 1 of dynamic ghost clock = result
 //@   ensures wf: tm_wf(s)
 //@   ensures stores-when-retained: s.ttl > 0 ==> has(s.items, k) && s.order[s.items[k]].value == v && s.order[s.items[k]].expireAt == clock + s.ttl
-//@   ensures others-kept-or-expired: forall j K :: j != k && old(has(s.items, j)) ==> (has(s.items, j) && s.order[s.items[j]].value == old(s.order[s.items[j]].value) && s.order[s.items[j]].expireAt == old(s.order[s.items[j]].expireAt)) || (!has(s.items, j) && old(s.order[s.items[j]].expireAt) <= clock)
-//@   ensures no-revival: forall j K :: j != k && !old(has(s.items, j)) ==> !has(s.items, j)
+//@   ensures others-kept-or-expired: forall j keyof(s.items) :: j != k && old(has(s.items, j)) ==> (has(s.items, j) && s.order[s.items[j]].value == old(s.order[s.items[j]].value) && s.order[s.items[j]].expireAt == old(s.order[s.items[j]].expireAt)) || (!has(s.items, j) && old(s.order[s.items[j]].expireAt) <= clock)
+//@   ensures no-revival: forall j keyof(s.items) :: j != k && !old(has(s.items, j)) ==> !has(s.items, j)
 
 //@ func (*TTLMap).Len(s)
 //@   requires tm_wf(s)
@@ -79,11 +79,11 @@ package xsync
 //@   requires tm_wf(s)
 //@   at call 1 of dynamic ghost clock = result
 //@   loop 1 invariant wf: tm_wf(s)
-//@   loop 1 invariant only-removes: forall j K :: has(s.items, j) ==> old(has(s.items, j)) && s.items[j] == old(s.items[j])
-//@   loop 1 invariant removed-were-expired: forall j K :: old(has(s.items, j)) && !has(s.items, j) ==> old(s.order[s.items[j]].expireAt) <= clock
+//@   loop 1 invariant only-removes: forall j keyof(s.items) :: has(s.items, j) ==> old(has(s.items, j)) && s.items[j] == old(s.items[j])
+//@   loop 1 invariant removed-were-expired: forall j keyof(s.items) :: old(has(s.items, j)) && !has(s.items, j) ==> old(s.order[s.items[j]].expireAt) <= clock
 //@   ensures wf: tm_wf(s)
-//@   ensures never-drops-live: forall j K :: old(has(s.items, j)) && !has(s.items, j) ==> old(s.order[s.items[j]].expireAt) <= clock
-//@   ensures no-revival: forall j K :: has(s.items, j) ==> old(has(s.items, j)) && s.items[j] == old(s.items[j])
+//@   ensures never-drops-live: forall j keyof(s.items) :: old(has(s.items, j)) && !has(s.items, j) ==> old(s.order[s.items[j]].expireAt) <= clock
+//@   ensures no-revival: forall j keyof(s.items) :: has(s.items, j) ==> old(has(s.items, j)) && s.items[j] == old(s.items[j])
 //@   modifies map(K,int)
 
 // ---------------------------------------------------------------------------
